@@ -77,6 +77,15 @@ func dagGet(ctx context.Context, rc *regclient.RegClient, rSrc ref.Ref, d descri
 	if err != nil {
 		return nil, err
 	}
+	// the client may return a cached manifest that is shared with other callers (and with another
+	// entry of the same index), the dag edits its manifests in place and needs its own copy
+	if raw, err := dm.m.RawBody(); err == nil && len(raw) > 0 {
+		mCopy, err := manifest.New(manifest.WithRef(rSrc), manifest.WithDesc(dm.m.GetDescriptor()), manifest.WithRaw(raw))
+		if err != nil {
+			return nil, err
+		}
+		dm.m = mCopy
+	}
 	dm.origDesc = dm.m.GetDescriptor()
 	if mi, ok := dm.m.(manifest.Indexer); ok {
 		dl, err := mi.GetManifestList()
